@@ -338,6 +338,21 @@ theorem call_args_keys_distinct (acc : CallArgs) (h : (acc.named.map (·.1)).Nod
     ∧ (∀ v acc', spread acc v = .ok acc' → (acc'.named.map (·.1)).Nodup) :=
   ⟨fun x v => nodup_keys_setAssoc x v acc.named h, fun v acc' hs => nodup_keys_spread acc v acc' h hs⟩
 
+/-- **a passed blank value is a passed argument.**  A `$map...` splat contributes *every*
+entry as a named argument — whatever its value, `null` included (`css::CallArgs::
+add_from_value_map`); together with `bind_order` (a named argument is bound as `.val v`
+for whatever `v`, the default is used only when the name is absent) a parameter passed as
+`null` is `null`, not its default, and an extra `null` entry is a keyword of the rest. -/
+theorem map_splat_keeps_every_entry (acc : CallArgs) (kv : List (List Char × Atom)) (acc' : CallArgs)
+    (hs : spread acc (.map kv) = .ok acc') (p : List Char × Atom) (hp : p ∈ kv) :
+    hasKey (normName p.1) acc'.named = true ∧ acc'.pos = acc.pos := by
+  simp only [spread, Except.ok.injEq] at hs
+  subst hs
+  exact ⟨hasKey_foldl_mapSplat kv acc.named _ (Or.inr ⟨p, hp, rfl⟩), rfl⟩
+
+example : (spread {} (.map [("b".toList, .null), ("k".toList, .null)])).toOption
+    = some { pos := [], named := [("b".toList, V.null), ("k".toList, V.null)] } := by decide
+
 /-- the hypotheses are met by a real call: `m($a, $b: $a + 1, $r...)` called `m(1, 2, 3, $k-k: 4)` -/
 example : specArgError ⟨[("a".toList, none), ("b".toList, some (.add (.var "a".toList) (.num 1)))], some "r".toList⟩
     { pos := [V.num 1, V.num 2, V.num 3], named := [("k_k".toList, V.num 4)] } = false := by decide
